@@ -12,7 +12,11 @@ Fixpoint wf (k : nat) : ru k -> Prop :=
 
 Lemma W_eq : W = 18446744073709551616. Proof. reflexivity. Qed.
 Lemma W_pos : 0 < W. Proof. rewrite W_eq; lia. Qed.
-Global Opaque W.
+Lemma modW_eq x : modW x = x mod W.
+Proof. unfold modW, Wm1, W. change 18446744073709551615 with (Z.ones 64). rewrite Z.land_ones by lia. reflexivity. Qed.
+Lemma divW_eq x : divW x = x / W.
+Proof. unfold divW, W. rewrite Z.shiftr_div_pow2 by lia. reflexivity. Qed.
+Global Opaque W modW divW.
 
 Lemma B_pos k : 0 < B k.
 Proof. induction k as [|k IH]; cbn [B]; [apply W_pos | nia]. Qed.
